@@ -18,10 +18,13 @@ import Driver.Proto
         <events> = `,`-separated pre-order trace of frame entries/exits, `-` for the empty trace:
                    `B<level>` enter `BlockParser::tokenize`, `I<level>` enter `InlineParser::tokenize`,
                    `S<level>` enter `InlineParser::skip_token`, `x` exit of the innermost open frame
+    nest checkprefix <N> <events> → the same for a possibly TRUNCATED trace (the hook stops recording
+                              at a size limit): frames left open at the end are accepted
     nest bound <N>            → `<N + 2>`  the proved bound on simultaneously active frames
     nest depthbound <N>       → `<2·N + 2>` the proved bound on tree depth not counting emphasis wrappers
 
-  The check is `MdIt.Nesting.checkTrace currentSites N` (the verified function); the index in a
+  The check is `MdIt.Nesting.checkTrace currentSites N` / `checkTracePrefix` (the verified functions:
+  `trace_bounded`, `trace_prefix_bounded`, `trace_of_run`); the index in a
   `bad:` answer is recomputed here for diagnostics only.
 -/
 namespace Driver.Nesting
@@ -61,6 +64,13 @@ def handle (args : List String) : String :=
     match nS.toNat?, parseEvents evS with
     | some N, some evs =>
       match checkTrace currentSites N evs with
+      | .ok m => if m ≤ N + 2 then s!"ok:{m}" else s!"bad:bound@{m}"
+      | .error e => s!"bad:{errName e}@{locate N evs [] 0}"
+    | _, _ => "bad-args"
+  | ["checkprefix", nS, evS] =>
+    match nS.toNat?, parseEvents evS with
+    | some N, some evs =>
+      match checkTracePrefix currentSites N evs with
       | .ok m => if m ≤ N + 2 then s!"ok:{m}" else s!"bad:bound@{m}"
       | .error e => s!"bad:{errName e}@{locate N evs [] 0}"
     | _, _ => "bad-args"
